@@ -4,8 +4,8 @@ package main
 //
 //	c09OwnsErrKeeps      OperatorPartition.ExclusivelyOwnsTable has a top-level `if err != nil { return false, err }`
 //	                     before its final `return !neighborNeedsTable, …` (1) or returns (!needs, err) unguarded (0)
-//	c09NeedsChecksLive   DB.NeedsTable = checkpoints.IncludesTable(..) || <live level list>.IncludesTable(..) (1),
-//	                     checkpoints only (0)
+//	c09NeedsChecksLive   DB.NeedsTable reads the checkpoint list and the live level list (1), checkpoints only (0)
+//	c09NeedsLiveFirst    … and reads the live level list before the checkpoint list (1) or after it (0)
 //	c09CkptUsesLevels    Checkpoint.IncludesTable consults cp.Levels when there is no URI index (1) or only the index (0)
 //	c09LoadedGuarded     the cleanup of sst.NewTableFromDocument calls p.deleteFunc only inside `if canDelete {…}` (1)
 //	c09CreatedDeletes    the cleanup of sst.NewTable calls the delete function (1)
@@ -74,46 +74,96 @@ func c09Facts(fc *facts) {
 	}
 
 	// --- DB.NeedsTable ---
+	// accepted shapes: `return A || B`, or `if A { return true }; [hook]; return B`, where A and B are the reads
+	// db.checkpoints.IncludesTable(..) and <live level list>.IncludesTable(..) in either order (or A alone)
 	df := parseFile("dkv/db.go")
 	nt := findFunc(df, "DB", "NeedsTable")
-	if nt == nil || nt.Body == nil || len(nt.Body.List) != 1 {
-		problem("DB.NeedsTable: expected a single return statement")
+	if nt == nil || nt.Body == nil {
+		problem("DB.NeedsTable not found")
 	} else {
-		rs, ok := nt.Body.List[0].(*ast.ReturnStmt)
-		okShape := ok && len(rs.Results) == 1
-		v := uint64(0)
-		if okShape {
-			e := rs.Results[0]
-			ck := c09CallsIn(e, "db.checkpoints.IncludesTable")
-			live := 0
-			ast.Inspect(e, func(x ast.Node) bool {
-				if c, ok := x.(*ast.CallExpr); ok {
-					if s, ok := c.Fun.(*ast.SelectorExpr); ok && s.Sel.Name == "IncludesTable" {
-						if inner, ok := s.X.(*ast.CallExpr); ok && selName(inner.Fun) == "db.currentSSTables" {
-							live++
-						} else if selName(s.X) == "db.sstables" {
-							live++
-						}
+		var reads []ast.Expr
+		okShape := true
+		var flatten func(e ast.Expr)
+		flatten = func(e ast.Expr) {
+			if p, ok := e.(*ast.ParenExpr); ok {
+				flatten(p.X)
+				return
+			}
+			if b, ok := e.(*ast.BinaryExpr); ok && b.Op == token.LOR {
+				flatten(b.X)
+				flatten(b.Y)
+				return
+			}
+			reads = append(reads, e)
+		}
+		for i, st := range nt.Body.List {
+			last := i == len(nt.Body.List)-1
+			switch x := st.(type) {
+			case *ast.IfStmt:
+				rs, isRet := (ast.Stmt)(nil), false
+				if x.Init == nil && x.Else == nil && len(x.Body.List) == 1 {
+					rs = x.Body.List[0]
+					if r, ok := rs.(*ast.ReturnStmt); ok && len(r.Results) == 1 && selName(r.Results[0]) == "true" {
+						isRet = true
 					}
 				}
-				return true
-			})
-			allOr := true
-			ast.Inspect(e, func(x ast.Node) bool {
-				if b, ok := x.(*ast.BinaryExpr); ok && b.Op != token.LOR {
-					allOr = false
+				if !isRet || last {
+					okShape = false
+				} else {
+					flatten(x.Cond)
 				}
-				if u, ok := x.(*ast.UnaryExpr); ok && u.Op == token.NOT {
-					allOr = false
+			case *ast.ExprStmt:
+				if c, ok := x.X.(*ast.CallExpr); !ok || selName(c.Fun) != "verifhook.At" {
+					okShape = false
 				}
-				return true
-			})
-			okShape = ck == 1 && allOr
-			if live >= 1 {
-				v = 1
+			case *ast.ReturnStmt:
+				if !last || len(x.Results) != 1 {
+					okShape = false
+				} else {
+					flatten(x.Results[0])
+				}
+			default:
+				okShape = false
 			}
 		}
-		fc.set("c09NeedsChecksLive", v, okShape, "DB.NeedsTable `return db.checkpoints.IncludesTable(..) [|| live.IncludesTable(..)]`")
+		var seq []string
+		for _, e := range reads {
+			kind := ""
+			if c, ok := e.(*ast.CallExpr); ok {
+				if selName(c.Fun) == "db.checkpoints.IncludesTable" {
+					kind = "ckpt"
+				} else if sel, ok := c.Fun.(*ast.SelectorExpr); ok && sel.Sel.Name == "IncludesTable" {
+					if inner, ok := sel.X.(*ast.CallExpr); ok && selName(inner.Fun) == "db.currentSSTables" {
+						kind = "live"
+					} else if selName(sel.X) == "db.sstables" {
+						kind = "live"
+					}
+				}
+			}
+			if kind == "" {
+				okShape = false
+			}
+			seq = append(seq, kind)
+		}
+		nCk, nLive := 0, 0
+		for _, k := range seq {
+			if k == "ckpt" {
+				nCk++
+			}
+			if k == "live" {
+				nLive++
+			}
+		}
+		okShape = okShape && nCk == 1 && nLive <= 1 && len(seq) == nCk+nLive
+		live, first := uint64(0), uint64(0)
+		if nLive == 1 {
+			live = 1
+			if seq[0] == "live" {
+				first = 1
+			}
+		}
+		fc.set("c09NeedsChecksLive", live, okShape, "DB.NeedsTable as two reads (checkpoint list, live level list) joined by || or an early return")
+		fc.set("c09NeedsLiveFirst", first, okShape, "DB.NeedsTable as two reads (checkpoint list, live level list) joined by || or an early return")
 	}
 
 	// --- Checkpoint.IncludesTable ---
